@@ -100,9 +100,9 @@ def run(rep: Report) -> None:
                           f"sigma^2 = {s2!r}; first-order propagation of f = {f!r} requires {spec!r}",
                           fi.where(o.node), note=repr(s2))
                 # tier A: unit of the uncertainty number
-                ctor = [e for e in run_.events if e.kind == "ctor" and e.data.get("cls") == "Measurement" and e.data.get("func") == qual
-                        and e.path == o.path]
-                ctor = ctor or [e for e in run_.events if e.kind == "ctor" and e.data.get("cls") == "Measurement" and e.data.get("func") == qual]
+                mine = [e for e in run_.events if e.kind == "ctor" and e.data.get("cls") == "Measurement" and e.data.get("func") == qual
+                        and e.plan == o.plan]
+                ctor = [e for e in mine if e.path == o.path] or [e for e in mine if e.node is getattr(o.node, "value", None)] or mine
                 typed = True
                 why = ""
                 for e in ctor[-1:]:
@@ -122,7 +122,7 @@ def run(rep: Report) -> None:
                 # spurious singularities
                 legit = neg_atoms(f) | neg_atoms(spec)
                 for e in run_.events:
-                    if e.kind != "div":
+                    if e.kind != "div" or e.plan != o.plan:
                         continue
                     den: Rat = e.data["den"]
                     for a in den.atoms():
